@@ -25,6 +25,7 @@ structure InBatch where
   kind : InKind := .same
   vals : List Int := []
   cancel : Bool := false
+  md : List (Bytes × Bytes) := []     -- the client's own custom metadata on the input batch
   deriving Repr, DecidableEq
 
 inductive VItem
@@ -83,7 +84,8 @@ def pipeExchange (declared : Bool) : SState → List InBatch → List VItem × T
     else if declared && b.kind = .bad then ([], .error .cast)
     else
       let typed := b.kind = .same || declared
-      let tick := if typed then (tickAt st).getD defaultExchangeTick else untypedTick
+      -- `iterCtx.InputMetadata` is the (cast) input batch's custom metadata: an echoing emit carries it
+      let tick := if typed then instTick b.md ((tickAt st).getD defaultExchangeTick) else untypedTick
       match runActs b.vals (Coll.new false) tick with
       | (_, some e) => ([], .error e)
       | (c, none) =>
@@ -142,7 +144,7 @@ def continuationMeta (tok call : Val) (cancel : Bool) : Meta :=
 
 /-- the exchange request a conformant client sends for one input -/
 def exchangeReq (inst : Nat) (dyn : Bool) (tok call : Val) (b : InBatch) : Req :=
-  { inst := inst, routeProducer := false, dynamic := dyn, md := continuationMeta tok call b.cancel,
+  { inst := inst, routeProducer := false, dynamic := dyn, md := continuationMeta tok call b.cancel ++ litMeta b.md,
     vals := b.vals, schemaOk := b.kind != .bad, exact := b.kind = .same }
 
 /-- the continuation request a conformant client sends to a producer stream -/
